@@ -4,7 +4,8 @@
    else the value of the innermost enclosing context that sets it, else the method's default", written
    directly (searching the stack from the innermost context outwards) -- unlike the model, which follows
    the code (merge all dictionaries oldest to newest, overlay, update).
-   [declared_wires] says, per method, which resolved values the commands put on the wire must carry. *)
+   [declared_wires] says, per method, which resolved values EVERY command put on the wire must carry
+   (all commands of the call, in order -- not only the first). *)
 From Coq Require Import ZArith List Bool String.
 Require Import Rig.Model.Base Rig.Generated.GenSignatures Rig.Generated.GenCtxGeometry Rig.Model.Context.
 Import ListNotations.
@@ -166,93 +167,134 @@ Definition wire_den (g : callctx) (sw : swire) (w : wire) : Prop :=
   /\ w_disc w = sw_disc sw
   /\ Forall2 (field_den g) (sw_fields sw) (w_fields w).
 
-(* a call's commands [ws] (with final error [e]) against the prescription [sws]: command by command; an
-   error may cut the sequence short, success means all of them were sent *)
-Definition wires_den (g : callctx) (sws : list swire) (ws : list wire) (e : option err) : Prop :=
-  exists k, (k <= List.length sws)%nat /\ Forall2 (wire_den g) (firstn k sws) ws
-            /\ (e = None -> k = List.length sws) /\ e <> Some FuelErr.
+(* A prescription is a sequence of items; an item marked [true] stands for zero or more consecutive
+   commands each satisfying it (a command sent once per element of a sequence argument, or only on some
+   paths), an item marked [false] for exactly one command. *)
+Definition pitem := (swire * bool)%type.
+
+(* the commands ws are exactly what the prescription describes, in order *)
+Inductive pmatch (g : callctx) : list pitem -> list wire -> Prop :=
+| PM_nil : pmatch g [] []
+| PM_one : forall sw rest w ws, wire_den g sw w -> pmatch g rest ws -> pmatch g ((sw, false) :: rest) (w :: ws)
+| PM_skip : forall sw rest ws, pmatch g rest ws -> pmatch g ((sw, true) :: rest) ws
+| PM_more : forall sw rest w ws,
+    wire_den g sw w -> pmatch g ((sw, true) :: rest) ws -> pmatch g ((sw, true) :: rest) (w :: ws).
+
+(* the commands ws are a beginning of what the prescription describes (a call cut short by an error) *)
+Inductive ppre (g : callctx) : list pitem -> list wire -> Prop :=
+| PP_stop : forall p, ppre g p []
+| PP_one : forall sw rest w ws, wire_den g sw w -> ppre g rest ws -> ppre g ((sw, false) :: rest) (w :: ws)
+| PP_skip : forall sw rest ws, ppre g rest ws -> ppre g ((sw, true) :: rest) ws
+| PP_more : forall sw rest w ws,
+    wire_den g sw w -> ppre g ((sw, true) :: rest) ws -> ppre g ((sw, true) :: rest) (w :: ws).
+
+(* EVERY command [ws] of a call (with final error [e]) against the prescription: command by command, in
+   order; an error may cut the sequence short, success means the whole prescription was carried out; the
+   model's recursion bound was not hit *)
+Definition pres_ok (g : callctx) (p : list pitem) (ws : list wire) (e : option err) : Prop :=
+  ppre g p ws /\ (e = None -> pmatch g p ws) /\ e <> Some FuelErr.
 
 (* ------------------------------------------------------------------ the prescription, method by method *)
 Definition A := SArg.
 Definition C (z : Z) := SConst (VInt z).
+Definition one (sw : swire) : pitem := (sw, false).
+Definition any_number (sw : swire) : pitem := (sw, true).
 Definition app_at (arg : nat) (shift : Z) : (fkind * nat * Z * sval) := (FByte, arg, shift, SArg "app_id").
 
 Definition on_chip (kind : Z) (p cmd : sval) disc fields : swire :=
   MkSW (Some kind) (RChip (A "x") (A "y")) (A "x") (A "y") p cmd disc fields.
 Definition broadcast (cmd : Z) disc fields : swire :=
   MkSW (Some 0) (RChip (C 255) (C 255)) (C 255) (C 255) (C 0) (C cmd) disc fields.
+(* the core a nested read_struct_field / read / write resolves when the caller does not pass one *)
+Definition rsf_p := SInner "read_struct_field" "p".
+Definition read_p := SInner "read" "p".
+Definition write_p := SInner "write" "p".
+Definition rd (p : sval) : swire := on_chip 1 p (SConst VNone) [] [].
+Definition wr (p : sval) : swire := on_chip 2 p (SConst VNone) [] [].
 (* a read of the system-wide struct: the chip the caller named, the core that read_struct_field resolves *)
-Definition sv_read : list swire := [on_chip 1 (SInner "read_struct_field" "p") (SConst VNone) [] []].
+Definition sv_read : list pitem := [one (rd rsf_p)].
+Definition nn_packet (sub_cmd : Z) fields : swire :=
+  broadcast SCP_nearest_neighbour_packet [(0%nat, 24, 255, sub_cmd)] fields.
+Definition count_command : swire := broadcast SCP_signal [(1%nat, 20, 15, 4 + AppDiag_count)] [app_at 1 0].
+Definition flood_fill : list pitem :=
+  [ one (nn_packet NN_flood_fill_start []);
+    one (nn_packet NN_flood_fill_core_select []);
+    one (MkSW (Some 1) (RChip (C 255) (C 255)) (C 255) (C 255) rsf_p (SConst VNone) [] []);
+    one (broadcast SCP_flood_fill_data [] []);
+    one (nn_packet NN_flood_fill_end [app_at 1 24]) ].
+Definition alloc_sdram : swire :=
+  on_chip 0 (C 0) (C SCP_alloc_free) [(0%nat, 0, 255, Alloc_alloc_sdram)] [app_at 0 8].
+(* the optional clearing of freshly allocated memory: a fill command or a write, to core 0 of the chip *)
+Definition clear_memory : swire := MkSW None (RChip (A "x") (A "y")) (A "x") (A "y") (C 0) SAny [] [].
+Definition routing_load (x y : sval) : list pitem :=
+  [ one (MkSW (Some 0) (RChip x y) x y (C 0) (C SCP_alloc_free) [(0%nat, 0, 255, Alloc_alloc_rtr)] [app_at 0 8]);
+    one (MkSW (Some 1) (RChip x y) x y rsf_p (SConst VNone) [] []);
+    one (MkSW (Some 2) (RChip x y) x y write_p (SConst VNone) [] []);
+    one (MkSW (Some 0) (RChip x y) x y (C 0) (C SCP_router) [(0%nat, 0, 255, RouterOp_load)] [app_at 0 8]) ].
 
-Definition mc_declared : list (string * list swire) :=
-  [ ("send_scp", [on_chip 0 (A "p") (SVarg 0) [] []]);
+Definition mc_declared : list (string * list pitem) :=
+  [ ("send_scp", [one (on_chip 0 (A "p") (SVarg 0) [] [])]);
     ("discover_connections", sv_read);
     ("application", []);
-    ("get_software_version", [on_chip 0 (A "processor") (C SCP_sver) [] []]);
-    ("get_ip_address", [on_chip 0 (C 0) (C SCP_info) [] []]);
-    ("write", [on_chip 2 (A "p") (SConst VNone) [] []]);
-    ("read", [on_chip 1 (A "p") (SConst VNone) [] []]);
-    ("write_across_link", [on_chip 0 (C 0) (C SCP_link_write) [] [(FByte, 2%nat, 0, A "link")]]);
-    ("read_across_link", [on_chip 0 (C 0) (C SCP_link_read) [] [(FByte, 2%nat, 0, A "link")]]);
-    ("read_struct_field", [on_chip 1 (A "p") (SConst VNone) [] []]);
-    ("write_struct_field", [on_chip 2 (A "p") (SConst VNone) [] []]);
-    ("read_vcpu_struct_field", sv_read);
-    ("write_vcpu_struct_field", sv_read);
-    ("get_processor_status", sv_read);
-    ("get_iobuf", sv_read);
-    ("get_iobuf_bytes", sv_read);
-    ("get_router_diagnostics", [on_chip 1 (SInner "read" "p") (SConst VNone) [] []]);
-    ("iptag_set", [on_chip 0 (C 0) (C SCP_iptag) [(0%nat, 16, 255, IPTagCmd_set)] []]);
-    ("iptag_get", [on_chip 0 (C 0) (C SCP_iptag) [(0%nat, 16, 255, IPTagCmd_get)] []]);
-    ("iptag_clear", [on_chip 0 (C 0) (C SCP_iptag) [(0%nat, 16, 255, IPTagCmd_clear)] []]);
-    ("set_led", [on_chip 0 (C 0) (C SCP_led) [] []]);
+    ("get_software_version", [one (on_chip 0 (A "processor") (C SCP_sver) [] [])]);
+    ("get_ip_address", [one (on_chip 0 (C 0) (C SCP_info) [] [])]);
+    ("write", [one (wr (A "p"))]);
+    ("read", [one (rd (A "p"))]);
+    ("write_across_link", [one (on_chip 0 (C 0) (C SCP_link_write) [] [(FByte, 2%nat, 0, A "link")])]);
+    ("read_across_link", [one (on_chip 0 (C 0) (C SCP_link_read) [] [(FByte, 2%nat, 0, A "link")])]);
+    ("read_struct_field", [one (rd (A "p"))]);
+    ("write_struct_field", [one (wr (A "p"))]);
+    (* the core p named by the caller selects the address; both reads go to the core the nested calls resolve *)
+    ("read_vcpu_struct_field", [one (rd rsf_p); one (rd read_p)]);
+    ("write_vcpu_struct_field", [one (rd rsf_p); one (wr write_p)]);
+    ("get_processor_status", [one (rd rsf_p); one (rd read_p)]);
+    ("get_iobuf", [one (rd rsf_p); one (rd rsf_p); one (rd read_p)]);
+    ("get_iobuf_bytes", [one (rd rsf_p); one (rd rsf_p); one (rd read_p)]);
+    ("get_router_diagnostics", [one (rd read_p)]);
+    ("iptag_set", [one (on_chip 0 (C 0) (C SCP_iptag) [(0%nat, 16, 255, IPTagCmd_set)] [])]);
+    ("iptag_get", [one (on_chip 0 (C 0) (C SCP_iptag) [(0%nat, 16, 255, IPTagCmd_get)] [])]);
+    ("iptag_clear", [one (on_chip 0 (C 0) (C SCP_iptag) [(0%nat, 16, 255, IPTagCmd_clear)] [])]);
+    ("set_led", [one (on_chip 0 (C 0) (C SCP_led) [] [])]);
     (* fill: a fill command, or (unaligned) a write -- either way to the chip and core named *)
-    ("fill", [MkSW None (RChip (A "x") (A "y")) (A "x") (A "y") (A "p") SAny [] []]);
-    ("sdram_alloc", [on_chip 0 (C 0) (C SCP_alloc_free) [(0%nat, 0, 255, Alloc_alloc_sdram)] [app_at 0 8]]);
-    ("sdram_alloc_as_filelike",
-       [on_chip 0 (C 0) (C SCP_alloc_free) [(0%nat, 0, 255, Alloc_alloc_sdram)] [app_at 0 8]]);
-    ("sdram_free", [on_chip 0 (C 0) (C SCP_alloc_free) [(0%nat, 0, 255, Alloc_free_sdram_by_ptr)] []]);
-    ("flood_fill_aplx",
-       [broadcast SCP_nearest_neighbour_packet [(0%nat, 24, 255, NN_flood_fill_start)] [];
-        broadcast SCP_nearest_neighbour_packet [(0%nat, 24, 255, NN_flood_fill_end)] [app_at 1 24]]);
+    ("fill", [one (MkSW None (RChip (A "x") (A "y")) (A "x") (A "y") (A "p") SAny [] [])]);
+    ("sdram_alloc", [one alloc_sdram; any_number clear_memory]);
+    ("sdram_alloc_as_filelike", [one alloc_sdram; any_number clear_memory]);
+    ("sdram_free", [one (on_chip 0 (C 0) (C SCP_alloc_free) [(0%nat, 0, 255, Alloc_free_sdram_by_ptr)] [])]);
+    ("flood_fill_aplx", flood_fill);
     ("load_application",
-       [broadcast SCP_nearest_neighbour_packet [(0%nat, 24, 255, NN_flood_fill_start)] [];
-        broadcast SCP_nearest_neighbour_packet [(0%nat, 24, 255, NN_flood_fill_end)] [app_at 1 24];
-        broadcast SCP_signal [(1%nat, 20, 15, 4 + AppDiag_count)] [app_at 1 0]]);
-    ("send_signal", [broadcast SCP_signal [(1%nat, 20, 15, 0)] [(FByte, 1%nat, 16, A "signal"); app_at 1 0]]);
-    ("count_cores_in_state", [broadcast SCP_signal [(1%nat, 20, 15, 4 + AppDiag_count)] [app_at 1 0]]);
-    ("wait_for_cores_to_reach_state", [broadcast SCP_signal [(1%nat, 20, 15, 4 + AppDiag_count)] [app_at 1 0]]);
+       flood_fill ++
+       [ any_number count_command;
+         any_number (broadcast SCP_signal [(1%nat, 20, 15, 0)] [(FByte, 1%nat, 16, C AppSignal_start); app_at 1 0]) ]);
+    ("send_signal", [one (broadcast SCP_signal [(1%nat, 20, 15, 0)] [(FByte, 1%nat, 16, A "signal"); app_at 1 0])]);
+    (* one count command per state given, every one of them carrying the application id *)
+    ("count_cores_in_state", [any_number count_command]);
+    ("wait_for_cores_to_reach_state", [any_number count_command]);
     (* load_routing_tables: the chip is the dictionary's key (not a contextual argument); the application id is *)
-    ("load_routing_tables",
-       let kx := SKeyX (A "routing_tables") in let ky := SKeyY (A "routing_tables") in
-       [MkSW (Some 0) (RChip kx ky) kx ky (C 0) (C SCP_alloc_free) [(0%nat, 0, 255, Alloc_alloc_rtr)] [app_at 0 8];
-        MkSW (Some 0) (RChip kx ky) kx ky (C 0) (C SCP_router) [(0%nat, 0, 255, RouterOp_load)] [app_at 0 8]]);
-    ("load_routing_table_entries",
-       [on_chip 0 (C 0) (C SCP_alloc_free) [(0%nat, 0, 255, Alloc_alloc_rtr)] [app_at 0 8];
-        on_chip 0 (C 0) (C SCP_router) [(0%nat, 0, 255, RouterOp_load)] [app_at 0 8]]);
-    ("get_routing_table_entries", sv_read);
+    ("load_routing_tables", routing_load (SKeyX (A "routing_tables")) (SKeyY (A "routing_tables")));
+    ("load_routing_table_entries", routing_load (A "x") (A "y"));
+    ("get_routing_table_entries", [one (rd rsf_p); one (rd read_p)]);
     ("clear_routing_table_entries",
-       [on_chip 0 (C 0) (C SCP_alloc_free) [(0%nat, 0, 255, Alloc_free_rtr_by_app)] [app_at 0 8]]);
+       [one (on_chip 0 (C 0) (C SCP_alloc_free) [(0%nat, 0, 255, Alloc_free_rtr_by_app)] [app_at 0 8])]);
     ("get_p2p_routing_table", sv_read);
-    ("get_chip_info", [on_chip 0 (C 0) (C SCP_info) [] []]);
-    ("get_working_links", [on_chip 0 (C 0) (C SCP_info) [] []]);
+    ("get_chip_info", [one (on_chip 0 (C 0) (C SCP_info) [] [])]);
+    ("get_working_links", [one (on_chip 0 (C 0) (C SCP_info) [] [])]);
     ("get_num_working_cores", sv_read);
     ("get_system_info", sv_read) ].
 
 Definition to_board (bd cmd : sval) fields : swire :=
   MkSW (Some 0) (RBmp (A "cabinet") (A "frame") bd) (C 0) (C 0) bd cmd [] fields.
 
-Definition bmp_declared : list (string * list swire) :=
-  [ ("send_scp", [to_board (A "board") (SVarg 0) []]);
-    ("get_software_version", [to_board (A "board") (C SCP_sver) []]);
+Definition bmp_declared : list (string * list pitem) :=
+  [ ("send_scp", [one (to_board (A "board") (SVarg 0) [])]);
+    ("get_software_version", [one (to_board (A "board") (C SCP_sver) [])]);
     (* power commands go to board 0 of the frame; the board named is the bit set in arg2 *)
-    ("set_power", [to_board (C 0) (C SCP_power) [(FBit, 1%nat, 0, A "board")]]);
-    ("set_led", [to_board (A "board") (C SCP_led) [(FBit, 1%nat, 0, A "board")]]);
-    ("read_fpga_reg", [to_board (A "board") (C SCP_link_read) []]);
-    ("write_fpga_reg", [to_board (A "board") (C SCP_link_write) []]);
-    ("read_adc", [to_board (A "board") (C SCP_bmp_info) []]) ].
+    ("set_power", [one (to_board (C 0) (C SCP_power) [(FBit, 1%nat, 0, A "board")])]);
+    ("set_led", [one (to_board (A "board") (C SCP_led) [(FBit, 1%nat, 0, A "board")])]);
+    ("read_fpga_reg", [one (to_board (A "board") (C SCP_link_read) [])]);
+    ("write_fpga_reg", [one (to_board (A "board") (C SCP_link_write) [])]);
+    ("read_adc", [one (to_board (A "board") (C SCP_bmp_info) [])]) ].
 
-Definition declared_wires (cls m : string) : option (list swire) :=
+Definition declared_wires (cls m : string) : option (list pitem) :=
   if String.eqb cls "MC" then sassoc m mc_declared
   else if String.eqb cls "BMP" then sassoc m bmp_declared
   else None.
